@@ -60,11 +60,13 @@ def basisNum (xs : List F) (x : F) (i : Nat) : F :=
 def basisDen (xs : List F) (i : Nat) : F :=
   prodL ((othersIdx xs.length i).map fun j => xs.getD i 0 - xs.getD j 0)
 
-/-- `lagrange.BasisAt`: `none` = some denominator is zero (two equal nodes) -/
+/-- the Lagrange basis values `ℓᵢ(x) = Π_{j≠i}(x - xⱼ) / Π_{j≠i}(xᵢ - xⱼ)` -/
+def basisTerms (xs : List F) (x : F) : List F :=
+  (List.range xs.length).map fun i => basisNum xs x i * (basisDen xs i)⁻¹
+
+/-- `lagrange.BasisAt`: `none` = some denominator is zero (two equal nodes; `TryDiv` fails) -/
 def basisAt (xs : List F) (x : F) : Option (List F) :=
-  (List.range xs.length).mapM fun i =>
-    let d := basisDen xs i
-    if d = 0 then none else some (basisNum xs x i * d⁻¹)
+  if (List.range xs.length).any (fun i => basisDen xs i = 0) then none else some (basisTerms xs x)
 
 /-- `lagrange.InterpolateAt` -/
 def interpolateAt (xs ys : List F) (x : F) : Except String F :=
